@@ -11,6 +11,7 @@ import (
 	"fmt"
 	"hash"
 	"sort"
+	"time"
 )
 
 // ---------- PRNG: xoshiro256** seeded by splitmix64 ----------
@@ -251,10 +252,13 @@ func SafeExecute(e Engine, plan interface{}, c *Ctx) (v *Verdict) {
 func Shrink(e Engine, plan interface{}, clause string, budget int, exec func(interface{}) *Verdict) (interface{}, int) {
 	steps := 0
 	cur := plan
+	// (also bounded in wall-clock time: a violation that is a hang costs its whole deadline per candidate)
+	stop := time.Now().Add(5 * time.Minute)
 	for budget > 0 {
 		improved := false
 		for _, cand := range e.Shrinks(cur) {
-			if budget <= 0 {
+			if budget <= 0 || time.Now().After(stop) {
+				budget = 0
 				break
 			}
 			budget--
